@@ -35,6 +35,7 @@ type config struct {
 	K       int    `json:"ops_per_thread"`
 	Keys    int    `json:"keys"`
 	Seed    int64  `json:"seed"`
+	Odd     bool   `json:"odd_keys,omitempty"` // keys that differ only by slashes / dot elements
 }
 
 type witness struct {
@@ -58,7 +59,18 @@ type tracker struct { // freshness monitor (whole run of one history)
 	supplied map[string]bool // versions the callers put into Record.Version of writes ("ignored" by contract)
 }
 
-func keyName(i int) string { return fmt.Sprintf("k%d", i) }
+// keyName: in every other history (oddKeys) the keys differ only by a trailing or doubled slash or a dot element:
+// different keys to the contract, easily one key to a backend that "cleans" paths
+func keyName(i int) string {
+	return fmt.Sprintf("k%d", i)
+}
+
+func keyOf(cfg config, i int) string {
+	if cfg.Odd {
+		return []string{"j/x", "j//x", "j/x/", "j/./x", "j/x/../x"}[i%5]
+	}
+	return keyName(i)
+}
 
 // one history: T clients x K operations on a fresh store
 func runHistory(s kvs.Storage, cfg config, base time.Time) ([]hist.Rec, map[string]bool) {
@@ -74,8 +86,8 @@ func runHistory(s kvs.Storage, cfg config, base time.Time) ([]hist.Rec, map[stri
 	v0 := ""
 	if cfg.Flavour == "cas-race" {
 		c := now()
-		r, err := s.Put(ctx, kvs.Record{Key: keyName(0), Value: []byte("init")})
-		setup = append(setup, hist.Rec{Client: cfg.T, In: hist.In{Kind: hist.KPut, Key: keyName(0), Val: "init"}, Out: hist.Out{Err: hist.Classify(err), Ver: r.Version}, Call: c, Ret: now()})
+		r, err := s.Put(ctx, kvs.Record{Key: keyOf(cfg, 0), Value: []byte("init")})
+		setup = append(setup, hist.Rec{Client: cfg.T, In: hist.In{Kind: hist.KPut, Key: keyOf(cfg, 0), Val: "init"}, Out: hist.Out{Err: hist.Classify(err), Ver: r.Version}, Call: c, Ret: now()})
 		v0 = r.Version
 	}
 	start := make(chan struct{})
@@ -86,7 +98,7 @@ func runHistory(s kvs.Storage, cfg config, base time.Time) ([]hist.Rec, map[stri
 			defer wg.Done()
 			<-start
 			for j := 0; j < cfg.K; j++ {
-				key := keyName(c.rng.Intn(cfg.Keys))
+				key := keyOf(cfg, c.rng.Intn(cfg.Keys))
 				val := fmt.Sprintf("%d-%d", c.id, c.n)
 				c.n++
 				same := c.rng.Intn(5) == 0 && c.lastVal[key] != "" // write exactly the bytes this client saw last
@@ -135,12 +147,12 @@ func runHistory(s kvs.Storage, cfg config, base time.Time) ([]hist.Rec, map[stri
 				case "create-race":
 					if j == 0 {
 						op = 0
-						key = keyName(0)
+						key = keyOf(cfg, 0)
 					}
 				case "cas-race":
 					if j == 0 {
 						op = 100
-						key = keyName(0)
+						key = keyOf(cfg, 0)
 					}
 				}
 				if c.rng.Intn(4) == 0 {
@@ -261,7 +273,7 @@ func runHistory(s kvs.Storage, cfg config, base time.Time) ([]hist.Rec, map[stri
 				case op < 91: // GetMany: one read per key, same interval
 					keys := []string{key}
 					for extra := c.rng.Intn(3); extra > 0; extra-- { // one to three keys, repeats possible
-						keys = append(keys, keyName(c.rng.Intn(cfg.Keys)))
+						keys = append(keys, keyOf(cfg, c.rng.Intn(cfg.Keys)))
 					}
 					call := now()
 					rs, err := s.GetMany(ctx, keys...)
@@ -299,7 +311,7 @@ func runHistory(s kvs.Storage, cfg config, base time.Time) ([]hist.Rec, map[stri
 				default: // PutMany: one write per (distinct) key, same interval
 					keys := []string{key}
 					for extra := 0; extra < 2; extra++ {
-						k2 := keyName(c.rng.Intn(cfg.Keys))
+						k2 := keyOf(cfg, c.rng.Intn(cfg.Keys))
 						dup := false
 						for _, k := range keys {
 							dup = dup || k == k2
@@ -368,13 +380,13 @@ func bigGetMany(s kvs.Storage, cfg config, recs []hist.Rec, run *report.Run) *fi
 	n := 130 + int(cfg.Seed%171)
 	keys := make([]string, n)
 	for i := range keys {
-		keys[i] = keyName(i % (cfg.Keys + 1)) // one key more than the history used: always absent
+		keys[i] = keyOf(cfg, i%(cfg.Keys+1)) // one key more than the history used: always absent
 	}
 	single := map[string]*kvs.Record{}
 	for i := 0; i <= cfg.Keys; i++ {
-		if r, err := s.Get(ctx, keyName(i)); err == nil {
+		if r, err := s.Get(ctx, keyOf(cfg, i)); err == nil {
 			rc := r
-			single[keyName(i)] = &rc
+			single[keyOf(cfg, i)] = &rc
 		}
 	}
 	res, err := s.GetMany(ctx, keys...)
@@ -410,13 +422,13 @@ func expiryOfAnotherWrite(rs *kvmodel.RedisServer, cfg config, recs []hist.Rec, 
 	type st struct{ ver string }
 	keep := map[string]st{}
 	for i := 0; i < cfg.Keys; i++ {
-		r, err := rs.S.Get(ctx, keyName(i))
+		r, err := rs.S.Get(ctx, keyOf(cfg, i))
 		if err != nil {
 			continue
 		}
 		run.Add("redis_final_records_checked", 1)
 		if r.ExpiresAt == nil {
-			keep[keyName(i)] = st{r.Version}
+			keep[keyOf(cfg, i)] = st{r.Version}
 		} else {
 			run.Add("redis_final_records_with_expiry", 1)
 		}
@@ -503,7 +515,7 @@ func judge(cfg config, recs []hist.Rec, supplied map[string]bool, run *report.Ru
 		wins := 0
 		racers := 0
 		for _, r := range recs {
-			if cfg.Flavour == "create-race" && r.In.Kind == hist.KCreate && r.In.Key == keyName(0) && r.Call < firstNonRace(recs, cfg) {
+			if cfg.Flavour == "create-race" && r.In.Kind == hist.KCreate && r.In.Key == keyOf(cfg, 0) && r.Call < firstNonRace(recs, cfg) {
 				racers++
 			}
 		}
@@ -549,7 +561,7 @@ func firstNonRace(recs []hist.Rec, cfg config) int64 { return 1 << 62 }
 func TestCheck(t *testing.T) {
 	run := report.New("C02", "exploration")
 	defer run.Finish(t)
-	run.Rule("concurrent histories of T in 2..8 clients x K in 4..12 operations over 1..3 keys (mix of Create/Get/Put/CasByVersion/Delete/GetMany/PutMany with unique values and occasional re-writes of identical bytes, inmem: writes of records whose expiry has already passed (logically absent, physically awaiting the lazy purge), writes carrying an expiry far in the future or a few milliseconds ahead (it passes during the history: from then on the key may be found absent, and a key seen absent never comes back without a write), hostile Version fields and stale / made-up CAS versions; flavours: mixed, racing creators, racing CAS on one version) recorded at the client boundary and checked (1) by porcupine against the per-key sequential model, (2) for outcomes outside the documented set, (3) for injectivity of version -> write, (4) Redis, at the quiescent end of every history: records without an expiry survive, unchanged, a jump of the server clock past the expiries of the other writes (the expiry of one write must not stick to another). (5) at the quiescent end: one GetMany of 130-300 keys answers position by position what single Gets answer. The whole workload is repeated (half as many histories) by a second pass built without the race detector, whose slow-down changes the interleavings. distinct = distinct outcome words (client, operation, key, outcome in call order) among histories in which operations of different clients on one key really overlapped in time")
+	run.Rule("concurrent histories of T in 2..8 clients x K in 4..12 operations over 1..3 keys (in every fourth history keys that differ only by a trailing / doubled slash or a dot element: j/x, j//x, j/x/) (mix of Create/Get/Put/CasByVersion/Delete/GetMany/PutMany with unique values and occasional re-writes of identical bytes, inmem: writes of records whose expiry has already passed (logically absent, physically awaiting the lazy purge), writes carrying an expiry far in the future or a few milliseconds ahead (it passes during the history: from then on the key may be found absent, and a key seen absent never comes back without a write), hostile Version fields and stale / made-up CAS versions; flavours: mixed, racing creators, racing CAS on one version) recorded at the client boundary and checked (1) by porcupine against the per-key sequential model, (2) for outcomes outside the documented set, (3) for injectivity of version -> write, (4) Redis, at the quiescent end of every history: records without an expiry survive, unchanged, a jump of the server clock past the expiries of the other writes (the expiry of one write must not stick to another). (5) at the quiescent end: one GetMany of 130-300 keys answers position by position what single Gets answer. The whole workload is repeated (half as many histories) by a second pass built without the race detector, whose slow-down changes the interleavings. distinct = distinct outcome words (client, operation, key, outcome in call order) among histories in which operations of different clients on one key really overlapped in time")
 	run.Assume("Redis backend runs against the in-process miniredis server with random per-command delays injected by its pre-hook")
 	run.Assume("the version reported together with ErrExist is not judged here (C03)")
 
@@ -651,7 +663,7 @@ func TestCheck(t *testing.T) {
 		}
 		rng := rand.New(rand.NewSource(run.Seed()))
 		for i := 0; i < nPer; i++ {
-			cfg := config{Backend: backend, Flavour: "mixed", T: 2 + rng.Intn(7), K: 4 + rng.Intn(9), Keys: 1 + rng.Intn(3), Seed: run.Seed()*1_000_003 + int64(i)}
+			cfg := config{Backend: backend, Flavour: "mixed", T: 2 + rng.Intn(7), K: 4 + rng.Intn(9), Keys: 1 + rng.Intn(3), Seed: run.Seed()*1_000_003 + int64(i), Odd: i%4 == 1}
 			switch i % 5 {
 			case 3:
 				cfg.Flavour = "create-race"
